@@ -1,9 +1,14 @@
 #!/bin/sh
 # usage: tools/try_mutant.sh <patch.diff> <prop> [<prop> ...]
 # applies a seeded change to /repo, runs the quick checks, undoes the change (always).
+# Holds work/.repo.lock exclusively meanwhile, so that no other check sees the modified tree.
 set -u
 patch="$1"; shift
 cd /verif
+mkdir -p work
+exec 8>work/.repo.lock
+flock 8
+export FC_REPO_LOCK_HELD=1
 if [ -n "$(git -C /repo status --porcelain --untracked-files=no)" ]; then echo "/repo not clean"; exit 2; fi
 git -C /repo apply "$patch" || { echo "patch does not apply"; exit 2; }
 trap 'git -C /repo checkout -- . ; echo "[reverted]"' EXIT
